@@ -80,12 +80,12 @@ func LoadOracles() *Oracles {
 
 // Arch describes one architecture with a syscall table.
 type Arch struct {
-	Name     string
-	ID       uint32 // AUDIT_ARCH value from the oracle
-	Info     *arch.Info
-	IsX86_64 bool
-	num      map[string]uint32 // oracle first, library table as fall-back
-	Unoracled int              // names for which no oracle lists a number
+	Name      string
+	ID        uint32 // AUDIT_ARCH value from the oracle
+	Info      *arch.Info
+	IsX86_64  bool
+	num       map[string]uint32 // oracle first, library table as fall-back
+	Unoracled int               // names for which no oracle lists a number
 }
 
 var srcPriority = []string{"kernel_uapi", "kernel_uapi_generic", "x_sys_v0_48", "go_syscall"}
